@@ -236,6 +236,20 @@ def run_message(case):
     return obs
 
 
+def long_text_cases():
+    """Long payloads: a multi-byte sequence interrupted / completed across long ASCII runs whose lengths sit on block sizes."""
+    for B in (63, 64, 127, 128, 255, 256, 1023, 1024, 4095, 4096, 4097, 8191, 8192, 16383, 16384, 65535, 65536):
+        for lead, cont in ((b"\xe2", b"\x82\xac"), (b"\xc3", b"\xa9"), (b"\xf0\x9f", b"\x98\x80")):
+            bad = b"a" * (B - len(lead)) + lead + b"a" * B + cont + b"z"  # interrupted sequence: ill-formed
+            good = b"a" * (B - len(lead)) + lead + cont + b"a" * B + b"z"
+            for data in (bad, good):
+                for nfrag in (1, 3):
+                    k = len(data) // nfrag
+                    specs = [{"fin": int(i == nfrag - 1), "op": rm.TEXT if i == 0 else rm.CONT, "p": data[i * k:(i + 1) * k if i < nfrag - 1 else len(data)], "key": None}
+                             for i in range(nfrag)]
+                    yield {"frames": specs, "driver": "data", "skip": False, "mut": "long", "as_close": False, "text": data, "resume": False}
+
+
 def run_case(case):
     if "batch" in case:
         return run_batch(case)
@@ -253,6 +267,7 @@ def jobs(tier, seed):
     for g in range(8):
         out.append({"name": f"len2-{g}", "kind": "cases", "cases": [{"batch": "len2", "lead": a} for a in range(g * 32, g * 32 + 32)]})
     out.append({"name": "len4", "kind": "cases", "cases": [{"batch": "len4", "lead": a, "set": BOUNDARY} for a in range(0xF0, 0xF8)]})
+    out.append({"name": "long-texts", "kind": "long"})
     if tier == "quick":
         out.append({"name": "len3-boundary", "kind": "cases",
                     "cases": [{"batch": "len3", "lead": a, "thirds": BOUNDARY} for a in range(0xE0, 0xF0)]})
@@ -266,6 +281,10 @@ def jobs(tier, seed):
 
 
 def run_job(job, coll):
+    if job["kind"] == "long":
+        for c in long_text_cases():
+            coll.check(c, run_case)
+        return
     if job["kind"] == "cases":
         for c in job["cases"]:
             coll.check(c, run_case)
